@@ -190,8 +190,13 @@ func runC15e2e(c *fw.Case) {
 			if len(hashes) > 0 {
 				victim := hashes[c.R.Intn(len(hashes))]
 				n := 0
+				// keep ONLY the index files of the other index modules: everything has to be computed again,
+				// with a pre-computed bitmap for some filtered modules and none for the others
 				for _, f := range s.cl.ListCache() {
-					if f.Sub == "index" && f.Hash == victim {
+					if strings.HasSuffix(f.Rel, ".spkg.zst") {
+						continue
+					}
+					if f.Sub != "index" || f.Hash == victim {
 						removeCacheFile(s, f.Rel)
 						n++
 					}
